@@ -50,9 +50,10 @@ Present(u) == CASE u = "plain" -> {"a", "A", "b"}
                 [] u = "blank" -> {"a", "", " "}
                 [] u = "affix" -> {"a", " a", "a,b"}
                 [] u = "inner" -> {"a", "a.b", "a b"}
-Missing(u) == IF u \in {"plain", "blank"} THEN {"z"} ELSE {"b"}
+                [] u = "star"  -> {"a", "a*", "a*b*c"}     \* an asterisk in a NAME is that character (no name patterns in a pipe)
+Missing(u) == IF u \in {"plain", "blank"} THEN {"z"} ELSE IF u = "star" THEN {"a*b"} ELSE {"b"}
 Asked(u)   == Present(u) \cup Missing(u)
-AllNames   == UNION {Asked(u) : u \in {"plain", "blank", "affix", "inner"}}
+AllNames   == UNION {Asked(u) : u \in {"plain", "blank", "affix", "inner", "star"}}
 
 Class(n) == CASE n = ""    -> "empty"
               [] n = " "   -> "ws"
@@ -60,6 +61,7 @@ Class(n) == CASE n = ""    -> "empty"
               [] n = "a,b" -> "sep"
               [] n = "a.b" -> "path"
               [] n = "a b" -> "innerws"
+              [] n \in {"a*", "a*b*c", "a*b"} -> "star"
               [] OTHER     -> "plain"
 
 NoF == [fields |-> <<>>, allow |-> TRUE]
